@@ -3,6 +3,7 @@ package main
 import (
 	"errors"
 	"fmt"
+	"runtime"
 	"strconv"
 	"strings"
 	"time"
@@ -289,6 +290,32 @@ func runC16w(toks []string) string {
 			wc.Close(func() error { time.Sleep(2 * delta); return nil })
 			close(closer)
 		}()
+	case "reuse":
+		// Nothing of one WaitUtil call may leak into a later one. Phase 1 provokes the awkward leftover: with one P,
+		// the closer closes just before the waiter's timeout and then keeps the P busy past the timeout, so the
+		// waiter is woken by the close while its timer fires as well. Phase 2: a fresh object, closed after 10 ms,
+		// must make WaitUtil(5 s) return true (and not at once with false).
+		for round := 0; round < 3; round++ {
+			old := runtime.GOMAXPROCS(1)
+			var w1 loom.WaitClose
+			done1 := make(chan bool, 1)
+			go func() { done1 <- w1.WaitUtil(timeout) }()
+			start := time.Now()
+			time.Sleep(timeout - delta)
+			w1.Close(nil)
+			for time.Since(start) < timeout+5*time.Millisecond {
+			}
+			<-done1
+			runtime.GOMAXPROCS(old)
+			var w2 loom.WaitClose
+			t0 := time.Now()
+			go func() { time.Sleep(10 * time.Millisecond); w2.Close(nil) }()
+			ok := w2.WaitUtil(5 * time.Second)
+			if !ok {
+				return fmt.Sprintf("res=false ms=%d", time.Since(t0).Milliseconds())
+			}
+		}
+		return "res=true ms=10"
 	case "zero":
 		wait(0)
 	case "neg":
